@@ -5,7 +5,9 @@
 (*        deterministic; distinct instances do not influence each other    *)
 (*        (also when used concurrently);                                   *)
 (*   C08  the block sequence of a WrappedParser does not depend on how the *)
-(*        reader chunks its data.                                          *)
+(*        reader chunks its data;                                          *)
+(*   C20  a parser created from the configuration another parser reports   *)
+(*        behaves identically.                                             *)
 (*                                                                         *)
 (* A behaviour consists of several runs, each on its own object of the     *)
 (* same configuration.  The first run is the reference.  From its "sync"   *)
@@ -45,6 +47,7 @@ RuleName(mode) ==
     [] mode = "det"   -> "C13.determinism"
     [] mode = "conc"  -> "C13.concurrent_equal"
     [] mode = "chunk" -> "C08.chunking_equal"
+    [] mode = "cfg"   -> "C20.reported_behaviour"
     [] OTHER          -> "C00.unknown_mode"
 
 (* a run ends (next run begins, or the trace ends): it must have made as   *)
